@@ -285,3 +285,243 @@ pub fn links_clean(run: &JobRun) -> Result<(), String> {
     }
     Ok(())
 }
+
+// ---- C03: routing -------------------------------------------------------------------------------
+
+#[derive(Default, Debug)]
+pub struct RoutingStats {
+    pub elements: u64,
+    pub group_edges_with_2_keys_2_replicas: u64,
+    pub multi_downstream: u64,
+    pub forward: u64,
+    pub broadcast: u64,
+    pub control_links: u64,
+}
+
+/// For every element stamped by the last operator of a block: the set of endpoints it was enqueued
+/// to must be what the connection kind promises. Control elements reach every connected endpoint.
+pub fn routing(run: &JobRun) -> Result<RoutingStats, String> {
+    use crate::build::RouteKind;
+    use crate::rec::route_pred;
+    use renoir::verif::Endpoint;
+    let mut stats = RoutingStats::default();
+    // replicas of every block
+    let mut replicas: HashMap<u64, Vec<Loc>> = HashMap::new();
+    for l in &run.ctx.workers.lock().unwrap().started {
+        replicas.entry(l.block_id).or_default().push(*l);
+    }
+    for v in replicas.values_mut() {
+        v.sort();
+    }
+    let kinds: HashMap<u32, Vec<&RouteKind>> = {
+        let mut m: HashMap<u32, Vec<&RouteKind>> = HashMap::new();
+        for (t, k) in &run.routes {
+            m.entry(*t).or_default().push(k);
+        }
+        m
+    };
+    // stamped elements by digest
+    let mut stamped: HashMap<u64, &ProbeEv> = HashMap::new();
+    for e in &run.probes {
+        if e.digest != 0 && is_data(e.kind) {
+            stamped.insert(e.digest, e);
+        }
+    }
+    // element -> endpoints; also which blocks send stamped data (their last operator is a probe)
+    let mut dest: HashMap<u64, Vec<Endpoint>> = HashMap::new();
+    let mut traced_blocks: HashMap<u64, u32> = HashMap::new(); // block -> probe id
+    for s in &run.sends {
+        for el in &s.msg {
+            if !is_data(el.kind) {
+                continue;
+            }
+            if let Some(p) = stamped.get(&el.digest) {
+                if p.loc == s.from {
+                    dest.entry(el.digest).or_default().push(s.ep);
+                    traced_blocks.insert(s.from.block_id, p.probe);
+                }
+            }
+        }
+    }
+    // stamped elements of traced blocks that were sent nowhere
+    for (d, p) in &stamped {
+        if traced_blocks.get(&p.loc.block_id) == Some(&p.probe) {
+            dest.entry(*d).or_default();
+        }
+    }
+    // downstream blocks of every traced block. The head of an `iterate` body also feeds the output
+    // block of the loop through the `Iterate` operator itself (not through the block's end): for
+    // those blocks only the destinations that received traced data count.
+    let loop_heads: std::collections::HashSet<u32> =
+        run.probe_info.iter().filter(|p| p.1 == "loop-in").map(|p| p.0).collect();
+    let mut downstream: HashMap<u64, BTreeMap<u64, ()>> = HashMap::new();
+    for s in &run.sends {
+        if let Some(probe) = traced_blocks.get(&s.from.block_id) {
+            let traced_data = s.msg.iter().any(|el| is_data(el.kind) && stamped.get(&el.digest).map_or(false, |p| p.loc == s.from));
+            if !loop_heads.contains(probe) || traced_data {
+                downstream.entry(s.from.block_id).or_default().insert(s.ep.to.block_id, ());
+            }
+        }
+    }
+    let mut key_home: HashMap<(u64, i64), Loc> = HashMap::new();
+    let mut route_block: HashMap<(u32, usize), u64> = HashMap::new();
+    let mut group_stats: HashMap<(u64, u64), (std::collections::BTreeSet<i64>, usize)> = HashMap::new();
+    for (d, eps) in &dest {
+        let p = stamped[d];
+        let Some(ks) = kinds.get(&p.probe) else { continue };
+        // a probe may be followed by several consumers only through split: one kind per probe here
+        let kind = ks[0];
+        stats.elements += 1;
+        let from_block = p.loc.block_id;
+        let down: Vec<u64> = downstream.get(&from_block).map(|m| m.keys().copied().collect()).unwrap_or_default();
+        if down.len() >= 2 {
+            stats.multi_downstream += 1;
+        }
+        let per_block = |b: u64| -> Vec<Loc> { eps.iter().filter(|e| e.to.block_id == b).map(|e| e.to).collect() };
+        let desc = || format!("element v={} stamped by probe {} at {}", p.v, p.probe, loc_str(p.loc));
+        match kind {
+            RouteKind::Route(preds) => {
+                let rec = crate::rec::Rec { v: p.v, m: 0, pad: Vec::new() };
+                let first = preds.iter().position(|q| route_pred(*q)(&rec));
+                match first {
+                    None => {
+                        if !eps.is_empty() {
+                            return Err(format!("{}: matches no route but was sent to {:?}", desc(), eps.iter().map(|e| crate::obs::ep_str(*e)).collect::<Vec<_>>()));
+                        }
+                    }
+                    Some(i) => {
+                        if eps.len() != 1 {
+                            return Err(format!("{}: first matching route is {i}, sent to {} endpoints (expected exactly one)", desc(), eps.len()));
+                        }
+                        let b = eps[0].to.block_id;
+                        if let Some(prev) = route_block.insert((p.probe, i), b) {
+                            if prev != b {
+                                return Err(format!("{}: route {i} delivered to block {b} and to block {prev}", desc()));
+                            }
+                        }
+                        if route_block.iter().any(|((pp, j), bb)| *pp == p.probe && *j != i && *bb == b) {
+                            return Err(format!("{}: two different routes deliver to block {b}", desc()));
+                        }
+                    }
+                }
+            }
+            _ => {
+                for b in &down {
+                    let got = per_block(*b);
+                    let reps = replicas.get(b).cloned().unwrap_or_default();
+                    match kind {
+                        RouteKind::Broadcast => {
+                            stats.broadcast += 1;
+                            let mut g = got.clone();
+                            g.sort();
+                            if g != reps {
+                                return Err(format!("{}: broadcast to block {b} reached {:?}, the block has replicas {:?}", desc(), g.iter().map(|l| loc_str(*l)).collect::<Vec<_>>(), reps.iter().map(|l| loc_str(*l)).collect::<Vec<_>>()));
+                            }
+                        }
+                        _ => {
+                            if got.len() != 1 {
+                                return Err(format!("{}: {:?} connection to block {b}: enqueued to {} replicas {:?} (expected exactly one)", desc(), kind, got.len(), got.iter().map(|l| loc_str(*l)).collect::<Vec<_>>()));
+                            }
+                            match kind {
+                                RouteKind::Forward => {
+                                    stats.forward += 1;
+                                    let same = reps.iter().find(|r| r.host_id == p.loc.host_id && r.replica_id == p.loc.replica_id);
+                                    if let Some(s) = same {
+                                        if got[0] != *s {
+                                            return Err(format!("{}: forward connection to block {b} went to {} although the same-index replica exists", desc(), loc_str(got[0])));
+                                        }
+                                    }
+                                }
+                                RouteKind::Group(k) | RouteKind::Repart(k) => {
+                                    let key = p.v.rem_euclid(*k);
+                                    let e = group_stats.entry((from_block, *b)).or_default();
+                                    e.0.insert(key);
+                                    e.1 = reps.len();
+                                    if let Some(prev) = key_home.insert((*b, key), got[0]) {
+                                        if prev != got[0] {
+                                            return Err(format!("{}: key {key} goes to {} of block {b}, another element with the same key went to {}", desc(), loc_str(got[0]), loc_str(prev)));
+                                        }
+                                    }
+                                }
+                                _ => {}
+                            }
+                        }
+                    }
+                }
+            }
+        }
+    }
+    stats.group_edges_with_2_keys_2_replicas = group_stats.values().filter(|(k, r)| k.len() >= 2 && *r >= 2).count() as u64;
+    // control elements: for every traced producer replica and every downstream block, every
+    // connected endpoint got every FlushAndRestart, Watermark and one Terminate
+    let mut ctrl: HashMap<(Loc, Endpoint), (u64, u64)> = HashMap::new();
+    let mut produced: HashMap<Loc, (u64, u64)> = HashMap::new();
+    for e in &run.probes {
+        if traced_blocks.get(&e.loc.block_id) == Some(&e.probe) {
+            let c = produced.entry(e.loc).or_default();
+            match e.kind {
+                ElemKind::FlushAndRestart => c.0 += 1,
+                ElemKind::Terminate => c.1 += 1,
+                _ => {}
+            }
+        }
+    }
+    for s in &run.sends {
+        if !traced_blocks.contains_key(&s.from.block_id) {
+            continue;
+        }
+        let c = ctrl.entry((s.from, s.ep)).or_default();
+        for el in &s.msg {
+            match el.kind {
+                ElemKind::FlushAndRestart => c.0 += 1,
+                ElemKind::Terminate => c.1 += 1,
+                _ => {}
+            }
+        }
+    }
+    for (block, probe) in &traced_blocks {
+        let Some(ks) = kinds.get(probe) else { continue };
+        let kind = ks[0];
+        if matches!(kind, RouteKind::Route(_)) {
+            continue;
+        }
+        let down: Vec<u64> = downstream.get(block).map(|m| m.keys().copied().collect()).unwrap_or_default();
+        for from in replicas.get(block).cloned().unwrap_or_default() {
+            let Some(prod) = produced.get(&from) else { continue };
+            for b in &down {
+                let reps = replicas.get(b).cloned().unwrap_or_default();
+                let targets: Vec<Loc> = match kind {
+                    RouteKind::Forward => {
+                        // the single endpoint this replica is connected to
+                        let t: Vec<Loc> = ctrl.keys().filter(|(f, e)| *f == from && e.to.block_id == *b).map(|(_, e)| e.to).collect();
+                        if t.len() != 1 {
+                            return Err(format!("forward connection {} -> block {b}: the producer is connected to {} replicas", loc_str(from), t.len()));
+                        }
+                        t
+                    }
+                    _ => reps.clone(),
+                };
+                for t in targets {
+                    let got = ctrl
+                        .iter()
+                        .filter(|((f, e), _)| *f == from && e.to == t)
+                        .map(|(_, c)| *c)
+                        .fold((0, 0), |a, c| (a.0 + c.0, a.1 + c.1));
+                    stats.control_links += 1;
+                    if got.0 != prod.0 || got.1 != prod.1 {
+                        return Err(format!(
+                            "{} -> {}: the producer emitted {} FlushAndRestart and {} Terminate, the endpoint was sent {} and {}",
+                            loc_str(from),
+                            loc_str(t),
+                            prod.0,
+                            prod.1,
+                            got.0,
+                            got.1
+                        ));
+                    }
+                }
+            }
+        }
+    }
+    Ok(stats)
+}
